@@ -127,9 +127,9 @@ def parent_main(args):
     print(f"[{prop} {args.tier}] evaluations={c.get('evaluations', 0)} executions={c.get('executions', 0)} "
           f"states={len(merged.distinct.get('states', ())) or c.get('states', 0)} transitions={c.get('transitions', 0)} "
           f"violations={len(unlisted)} known={len(listed)} wall={time.time() - t0:.1f}s")
-    if merged.errors:
-        return 2
-    return 1 if unlisted else 0
+    if unlisted:
+        return 1          # a violation was demonstrated; harness errors (printed above) do not mask it
+    return 2 if merged.errors else 0
 
 
 def read_static(prop):
